@@ -1,6 +1,7 @@
 import Drivers.Wire
 import Model.Files
 import Model.FilesText
+import Model.FilesEnv
 
 /-!
 Driver for C15.
@@ -15,6 +16,10 @@ Driver for C15.
   `csv.reader` model and abstracted into lines (`abstract`), `wellFormedPrefix`, the loader model, the
   cell check (`cellsOk`, `bytesOk`), whether the writer model renders the records read back to the
   same bytes, and (on request) the records themselves.
+* `{"op":"move","same":b,"old":[line…]|null,"new":[line…],"sizes":[…]}` (line = `["h",ext]`, `["r",search,id,ext]`,
+  `["t",search,id]`) → the environment model `Model/FilesEnv.lean`: the system calls of moving a file `src` that holds
+  `new` onto `results.csv` (holding `old`) when `src` is on the same / on another file system, whether each call
+  succeeds, and `results.csv` after every prefix.
 -/
 
 open Lean DH.Wire DH.Files
@@ -113,6 +118,17 @@ def errStr : LoadErr → String
   | .headerAsRow => "headerAsRow"
   | .noRows => "noRows"
 
+def jLine (j : Json) : Except String Line := do
+  match ← jList pure j with
+  | [t, e] => if (← t.getStr?) == "h" then return .header (← jBool e) else throw "line tag"
+  | [t, a, b] => if (← t.getStr?) == "t" then return .torn ⟨← jNat a, ← jNat b⟩ else throw "line tag"
+  | [t, a, b, e] => if (← t.getStr?) == "r" then return .row ⟨← jNat a, ← jNat b⟩ (← jBool e) else throw "line tag"
+  | _ => throw "line = [h,ext] | [r,search,id,ext] | [t,search,id]"
+
+def okIn (m : Mounts) : FS → List Op → List Bool
+  | _, [] => []
+  | fs, op :: ops => opOkIn m fs op :: okIn m (stepIn m fs op) ops
+
 def handle (j : Json) : Except String Json := do
   let op ← (← field j "op").getStr?
   match op with
@@ -169,6 +185,20 @@ def handle (j : Json) : Except String Json := do
       ("records", match recs with
         | some r => if want then ofRecords r else Json.null
         | none => Json.null)]
+  | "move" =>
+    let same ← jBool (← field j "same")
+    let m : Mounts := fun _ => if same then .logDev else .otherDev
+    let src : DH.Files.Name := .other "src"
+    let new ← jList jLine (← field j "new")
+    let sizes ← jList jNat (fieldD j "sizes" (Json.arr #[]))
+    let fs0 : FS ← match fieldD j "old" Json.null with
+      | .null => pure [(src, new)]
+      | o => do pure [(.results, ← jList jLine o), (src, new)]
+    let ops := moveOps m src .results new sizes
+    return Json.mkObj [("ok", true), ("ops", Json.arr (ops.map ofOp).toArray), ("sys_ok", ofBools (okIn m fs0 ops)),
+      ("results", Json.arr ((scanOps m fs0 ops).map (fun fs => match get fs .results with
+        | none => Json.null
+        | some c => ofContent c)).toArray)]
   | _ => throw s!"unknown op {op}"
 
 def main : IO Unit := serveFn handle
